@@ -184,9 +184,15 @@ class World:
         if self.tip is None or other_tip is None:
             return [("err", frozenset(["NoCommits"]))]
         heads, common = self.ref.lcas(self.tip, other_tip)
+        common_ghosts = self.ref.ghosts & self.ref.anc_g(self.tip) & self.ref.anc_g(other_tip)
         if not common:
-            return [("err", frozenset(["NoCommonAncestor"]))]
-        if self.ref.ghosts & self.ref.anc_g(self.tip) & self.ref.anc_g(other_tip):
+            out = [("err", frozenset(["NoCommonAncestor"]))]
+            if common_ghosts:
+                # the only thing both sides refer to is a ghost: its id, or a refusal
+                out.append(INVALID)
+                out.extend(("ok", dw.node_id(self.ref, g_)) for g_ in sorted(common_ghosts))
+            return out
+        if common_ghosts:
             # a ghost both sides refer to is a candidate too (a graph node without a revision):
             # any common ancestor or a refusal
             return [("ok", rid(x)) for x in sorted(common)] + [("err", frozenset(["NoCommonAncestor"]))]
